@@ -1,8 +1,8 @@
 """C07 — iterator/stream/xslices combinators compute their documented sequence function."""
 import vlib
-from pipes_common import PipeSpec
+from pipes_common import PipeSpec, XSlicesAgreeSpec
 
-SPECS = {"iterator": (PipeSpec("iter", False), "harness", "runner"), "stream": (PipeSpec("stream", False), "harness", "runner")}
+SPECS = {"iterator": (PipeSpec("iter", False), "harness", "runner"), "stream": (PipeSpec("stream", False), "harness", "runner"), "xslices": (XSlicesAgreeSpec(), "harness", "runner")}
 
 PROP_FILES = ["C07"]
 
@@ -15,6 +15,7 @@ def run(ctx):
         return ctx.finish()
     vlib.seq_differential(ctx, PipeSpec("iter", faults=False), exe, proofs_ok, tag="iterator")
     vlib.seq_differential(ctx, PipeSpec("stream", faults=False), exe, proofs_ok, tag="stream")
+    vlib.seq_differential(ctx, XSlicesAgreeSpec(), exe, proofs_ok, tag="xslices")
     vlib.merge_parts(ctx, "cases = random pipelines (depth 0-4) of the real combinators over instrumented sources (empty, singleton, all-equal, alternating, run at start/end), "
                      "parameters n in {-1,0,1,..,len+1}, consumer = k Next calls (k up to len+3, past the end) or a reducer; compared: every result, the number of source pulls after every step, the source event log; "
                      "distinct = hash of (pipeline, program); non-trivial = at least one combinator and one step")
